@@ -6,6 +6,13 @@ def T(name, build, mode="B"):
     return dict(name=name, build=build, mode=mode)
 
 
+def signature_tasks():
+    """Signature.extract, any number of parameters (mode U, contracts/sig_c.py)"""
+    from contracts import sig_c
+
+    return [T("Signature.extract", sig_c.t_extract, "U")]
+
+
 def defns_tasks():
     return [T(f"Ovld.defns[{g}]", m.t_defns(g)) for g in m.GRAPHS]
 
